@@ -15,6 +15,11 @@
 (*    (RequestLocal).  The documented protocol (invalidate after an update)    *)
 (*    is part of the property's assumption: a processed request recorded       *)
 (*    while an update is pending invalidation is not judged.                   *)
+(*    mstore is what the harness wrote into the backing store behind the       *)
+(*    service's back (Reset, ExternalEdit lines): a recorded resolution must   *)
+(*    be the most specific entry existing NOW (ResolvedExistsNow,              *)
+(*    MostSpecificNow) and a plain get must return what is stored NOW          *)
+(*    (PayloadNow).                                                            *)
 (***************************************************************************)
 EXTENDS ConfigQuerySvc, Integers, Json, IOUtils
 
@@ -23,9 +28,10 @@ Trace == ndJsonDeserialize(IOEnv.TRACE_FILE)
 VARIABLES l, mode, scn,
           mcontent,   \* monitor: what the harness stored in the backend
           mdirty,     \* monitor: an Update line since the last Invalidate/Reset line
+          mstore,     \* monitor: the candidate entries the harness stored (Reset) or edited from outside (ExternalEdit)
           nviol
 
-tvars == <<l, mode, scn, mcontent, mdirty, nviol>>
+tvars == <<l, mode, scn, mcontent, mdirty, mstore, nviol>>
 allvars == <<svars, tvars>>
 
 Line == Trace[l]
@@ -35,7 +41,7 @@ Soft(name, cond, detail) ==
   ELSE IF PrintT(<<"VIOL", name, scn, l, detail>>) THEN 1 ELSE 1
 
 Answer == [ok |-> Line.ok, out |-> IF Line.ok THEN Line.payload ELSE ""]
-IsCall == Line.ev \in {"Process", "Raw", "Invalidate", "Update"}
+IsCall == Line.ev \in {"Process", "Raw", "Invalidate", "Update", "ExternalEdit", "Resolve", "GetX"}
 
 TablesOk ==
   CASE Line.ev = "Process" -> /\ Len(Line.varsReal) = Len(Line.vars)
@@ -48,6 +54,9 @@ ModelAct ==
     [] Line.ev = "Raw"        -> Raw(Line.e) /\ out' = Answer
     [] Line.ev = "Invalidate" -> Invalidate
     [] Line.ev = "Update"     -> Update(Line.e, Line.parts)
+    [] Line.ev = "ExternalEdit" -> ExternalEdit(Line.e, Line.v)
+    [] Line.ev = "Resolve"    -> Resolve(Line.e) /\ out' = Answer
+    [] Line.ev = "GetX"       -> GetX(Line.e) /\ out' = Answer
     [] OTHER -> FALSE
 
 Matched == TablesOk /\ ModelAct
@@ -60,12 +69,20 @@ LineReq == [op |-> Line.ev,
 MonitorStep ==
   LET c2 == IF Line.ev = "Update" THEN [mcontent EXCEPT ![Line.e] = Line.parts] ELSE mcontent
       d2 == CASE Line.ev = "Update" -> TRUE [] Line.ev = "Invalidate" -> FALSE [] OTHER -> mdirty
+      s2 == IF Line.ev = "ExternalEdit" THEN [mstore EXCEPT ![Line.e] = Line.v] ELSE mstore
       judged == Line.ev = "Raw" \/ (Line.ev = "Process" /\ ~mdirty)
-      cause == IF judged /\ Answer = Expected(mcontent, LineReq, TRUE) THEN "html-escape" ELSE "history-or-other"
-  IN /\ mcontent' = c2 /\ mdirty' = d2
+      cause == IF judged /\ Answer = Expected(mcontent, mstore, LineReq, TRUE) THEN "html-escape" ELSE "history-or-other"
+      rr == IF Line.ev = "Resolve" /\ Line.ok
+              THEN [comp |-> Line.res.comp, rt |-> Line.res.rt, role |-> Line.res.role, entry |-> Line.res.entry]
+              ELSE NotFound
+      what == <<"store-now", Line.ev, IF "e" \in DOMAIN Line THEN Line.e ELSE "", mstore>>
+  IN /\ mcontent' = c2 /\ mdirty' = d2 /\ mstore' = s2
      /\ nviol' = nviol
-          + Soft("RequestLocal", judged => Answer = Expected(mcontent, LineReq, FALSE),
+          + Soft("RequestLocal", judged => Answer = Expected(mcontent, mstore, LineReq, FALSE),
                  <<cause, Line.ev, IF "e" \in DOMAIN Line THEN Line.e ELSE "", LineReq.vars>>)
+          + Soft("ResolvedExistsNow", Line.ev = "Resolve" => ResolvedExists(XQ(Line.e), Existing(mstore), rr), what)
+          + Soft("MostSpecificNow", Line.ev = "Resolve" => MostSpecific(XQ(Line.e), Existing(mstore), rr), what)
+          + Soft("PayloadNow", Line.ev = "GetX" => Answer = Expected(mcontent, mstore, LineReq, FALSE), what)
 
 TStepOk ==
   /\ l <= Len(Trace) /\ IsCall /\ mode = "ok"
@@ -89,16 +106,19 @@ TReset ==
   /\ l <= Len(Trace) /\ Line.ev = "Reset"
   /\ content' = [e \in Entries |-> Line.content[e]]
   /\ compiled' = [e \in Entries |-> NoSnap]
+  /\ store' = [k \in Keys |-> Line.store[k]] /\ tree' = [k \in Keys |-> Line.store[k]]
   /\ dirty' = FALSE /\ req' = NoReq /\ out' = Nothing /\ n' = 0
   /\ mode' = "ok" /\ scn' = Line.scn
-  /\ mcontent' = [e \in Entries |-> Line.content[e]] /\ mdirty' = FALSE
+  /\ mcontent' = [e \in Entries |-> Line.content[e]] /\ mdirty' = FALSE /\ mstore' = [k \in Keys |-> Line.store[k]]
   /\ l' = l + 1 /\ UNCHANGED nviol
 
 TSkip ==      \* "Corner" measurements
   /\ l <= Len(Trace) /\ ~IsCall /\ Line.ev # "Reset"
-  /\ l' = l + 1 /\ UNCHANGED <<svars, mode, scn, mcontent, mdirty, nviol>>
+  /\ l' = l + 1 /\ UNCHANGED <<svars, mode, scn, mcontent, mdirty, mstore, nviol>>
 
-TraceInit == Init /\ l = 1 /\ mode = "lost" /\ scn = -1 /\ mcontent = InitContent /\ mdirty = FALSE /\ nviol = 0
+TraceInit == /\ Init /\ store = [k \in Keys |-> 0]
+             /\ l = 1 /\ mode = "lost" /\ scn = -1 /\ mcontent = InitContent /\ mdirty = FALSE
+             /\ mstore = [k \in Keys |-> 0] /\ nviol = 0
 TraceNext == TStepOk \/ TStepDrift \/ TStepLost \/ TReset \/ TSkip
 TraceSpec == TraceInit /\ [][TraceNext]_allvars
 
